@@ -1050,9 +1050,11 @@ class PyReader:
                 if r is not NotImplemented:
                     return r
         if name == "dict" and len(args) == 1 and isinstance(args[0], list) and all(isinstance(x, list) and len(x) == 2 for x in args[0]):
-            return {k: v for k, v in args[0]}
+            return {**{freeze(k): v for k, v in args[0]}, **kwargs}
         if name == "dict" and len(args) == 1 and isinstance(args[0], dict):
-            return dict(args[0])
+            return {**args[0], **kwargs}
+        if name == "dict" and not args and name not in self.functions:
+            return dict(kwargs)
         if name in ("set", "frozenset") and len(args) <= 1:
             out_ = PySet()
             for x_ in (args[0] if args else []):
